@@ -18,7 +18,8 @@ Proof. intros s H. unfold impl_v5 in H. destruct (valid_v5_topic_impl s) as [[|]
 (* ---------------------------------------------------------------- SUBSCRIBE *)
 Definition subtopic_inv (v : N) (t : subtopic) : Prop :=
   istr_ok (st_name t) = true /\ st_qos t <= 2 /\
-  if v =? 5 then impl_v5 (st_name t) = true /\ st_rh t <= 3
+  if v =? 5 then impl_v5 (st_name t) = true /\ st_rh t <= 2
+                 /\ (st_nl t && has_prefix SHARE_PREFIX (st_name t)) = false
   else impl_filter (st_name t) = true /\ st_rh t = 0 /\ st_nl t = false /\ st_rap t = false.
 
 Definition sub_opts5 (t : subtopic) : N :=
@@ -57,14 +58,15 @@ Proof.
   { intros acc' X ->. destruct ts as [|t2 ts2]; [cbn; now rewrite app_nil_r|].
     rewrite Hrec by discriminate. cbn [flat_map]. unfold enc_sub at 1, put_bin, put16. cbn [app]. reflexivity. }
   destruct (N.eqb_spec v 5) as [->|Hv]; cbn [N.eqb Pos.eqb negb andb] in *.
-  - destruct Hrest as [_ Hrh].
-    destruct (sub_opts5_rt (st_qos t) (st_rh t) (st_nl t) (st_rap t) Hq Hrh) as (E1 & E2 & E3 & E4 & E5).
-    unfold sub_opts5. rewrite E1, E2, E3, E4, E5. cbn [st_qos N.eqb negb].
-    replace (2 <? st_qos t) with false by lia.
+  - destruct Hrest as (_ & Hrh & Hnls).
+    destruct (sub_opts5_rt (st_qos t) (st_rh t) (st_nl t) (st_rap t) Hq ltac:(lia)) as (E1 & E2 & E3 & E4 & E5).
+    unfold sub_opts5. rewrite E1, E2, E3, E4, E5. cbn [st_qos st_rh st_nl N.eqb negb].
+    replace (2 <? st_rh t) with false by lia.
+    replace (2 <? st_qos t) with false by lia. rewrite Hnls.
     replace {| st_name := st_name t; st_qos := st_qos t; st_rh := st_rh t; st_nl := st_nl t; st_rap := st_rap t |}
       with t by (destruct t; reflexivity).
     rewrite (Hend (acc ++ [t]) _ eq_refl). rewrite <- app_assoc. reflexivity.
-  - destruct Hrest as (_ & Hrh & Hnl & Hrap). replace (v =? 5) with false by lia. cbn [st_qos negb andb].
+  - destruct Hrest as (_ & Hrh & Hnl & Hrap). replace (v =? 5) with false by lia. cbn [st_qos st_nl negb andb].
     replace (2 <? st_qos t) with false by lia.
     assert (E6 : N.land 3 (N.shiftr (st_qos t) 6) = 0).
     { assert (Hq' : st_qos t = 0 \/ st_qos t = 1 \/ st_qos t = 2) by lia.
@@ -78,7 +80,7 @@ Qed.
 Definition subscribe_inv (v : N) (b : body) : Prop :=
   match b with
   | BSubscribe ver pid topics pr =>
-      ver = v /\ pid < 65536 /\ topics <> [] /\ (forall t, In t topics -> subtopic_inv v t) /\ oprops_inv v SUBSCRIBE pr
+      ver = v /\ 0 < pid < 65536 /\ topics <> [] /\ (forall t, In t topics -> subtopic_inv v t) /\ oprops_inv v SUBSCRIBE pr
   | _ => False
   end.
 
@@ -105,7 +107,7 @@ Proof.
           = put16 pid ++ (if v =? 5 then props_pack pr else []) ++ flat_map (enc_sub v) topics).
   { rewrite <- pack_subscribe_topics. destruct (v =? 5); reflexivity. }
   rewrite Hbytes in *. clear Hbytes.
-  unfold parse_subscribe. rewrite read_uint16_put16 by assumption. cbn [bind].
+  unfold parse_subscribe. rewrite read_uint16_put16 by lia. cbn [bind]. replace (pid =? 0) with false by lia.
   unfold oprops_inv in Hpr. destruct (v =? 5) eqn:Ev.
   - destruct Hpr as [p [-> Hinv]].
     rewrite props_rt; [|assumption|unfold BIG in Hlen; rewrite !len_app in Hlen; lia].
@@ -130,14 +132,16 @@ Proof.
   apply read_byte_inv in E2; [|assumption]. destruct E2 as (Ho & Hb2 & _).
   cbv zeta in H.
   set (t := if v =? 5 then _ else _) in H.
+  destruct ((v =? 5) && (2 <? st_rh t)) eqn:C0; [discriminate|].
   destruct (negb (v =? 5) && (2 <? st_qos t)) eqn:C1; [discriminate|].
   destruct (negb (N.land 3 (N.shiftr opts 6) =? 0)) eqn:C2; [discriminate|].
   destruct (2 <? st_qos t) eqn:C3; [discriminate|].
+  destruct (st_nl t && has_prefix SHARE_PREFIX tf) eqn:C4; [discriminate|].
   assert (Ht : subtopic_inv v t).
-  { unfold subtopic_inv. subst t. destruct (v =? 5) eqn:Ev; cbn [st_name st_qos st_rh st_nl st_rap] in *.
+  { unfold subtopic_inv. subst t. destruct (v =? 5) eqn:Ev; cbn [st_name st_qos st_rh st_nl st_rap andb] in *.
     - split; [unfold istr_ok; rewrite Hu by reflexivity; lia|]. split; [lia|]. split.
       + unfold impl_v5. rewrite Evalid. reflexivity.
-      + apply land3_le.
+      + split; [lia|exact C4].
     - split; [unfold istr_ok; rewrite Hu by reflexivity; lia|]. split; [lia|]. split.
       + unfold impl_filter. rewrite Evalid. reflexivity.
       + auto. }
@@ -155,25 +159,31 @@ Proof.
   intros v b body H Hb. unfold parse_subscribe in H.
   destruct (read_uint16 b) as [[pid b1]| | |] eqn:E1; cbn [bind] in H; try discriminate.
   apply read_uint16_inv in E1; [|assumption]. destruct E1 as [Hp Hb1].
+  destruct (N.eqb_spec pid 0) as [Hz|Hz]; [discriminate|].
   destruct (if v =? 5 then _ else _) as [[pr b3]| | |] eqn:E3; cbn [bind] in H; try discriminate.
   apply oprops_dec in E3; [|assumption]. destruct E3 as [Hpr Hb3].
   destruct (sub_topics_loop _ _ _ _) as [ts| | |] eqn:El; cbn [bind] in H; try discriminate.
   apply sub_loop_inv in El; [|assumption]. destruct El as [new (-> & Hne & Hnew)]. cbn [app] in *.
-  inversion H; subst. split; [|eauto]. cbn [subscribe_inv]. auto.
+  inversion H; subst. split; [|eauto]. cbn [subscribe_inv].
+  split; [reflexivity|]. split; [lia|]. split; [assumption|]. split; assumption.
 Qed.
 
 (* ---------------------------------------------------------------- UNSUBSCRIBE *)
-Definition unsub_inv (t : str) : Prop := istr_ok t = true /\ impl_filter t = true.
+Definition unsub_inv (v : N) (t : str) : Prop :=
+  istr_ok t = true /\ (if v =? 5 then impl_v5 t else impl_filter t) = true.
 
-Lemma unsub_loop_rt : forall topics fuel acc,
-  topics <> [] -> (forall t, In t topics -> unsub_inv t) ->
+Lemma unsub_loop_rt : forall v topics fuel acc,
+  topics <> [] -> (forall t, In t topics -> unsub_inv v t) ->
   (length (flat_map put_bin topics) < fuel)%nat ->
-  unsub_topics_loop fuel acc (flat_map put_bin topics) = Ok (acc ++ topics).
+  unsub_topics_loop fuel v acc (flat_map put_bin topics) = Ok (acc ++ topics).
 Proof.
   induction topics as [|t ts IH]; intros fuel acc Hne Hinv Hf; [congruence|].
   destruct fuel; [lia|]. cbn [unsub_topics_loop flat_map].
   destruct (Hinv t (or_introl eq_refl)) as (Hname & Hfil).
-  rewrite istr_ok_rt by assumption. cbn [bind]. rewrite impl_filter_true by assumption. cbn [bind negb].
+  rewrite istr_ok_rt by assumption. cbn [bind].
+  assert (Hvalid : (if v =? 5 then valid_v5_topic_impl t else valid_topic_filter_impl true t) = Ok true).
+  { destruct (v =? 5); [apply impl_v5_true|apply impl_filter_true]; assumption. }
+  rewrite Hvalid. cbn [bind negb].
   destruct ts as [|t2 ts2].
   - cbn [flat_map]. reflexivity.
   - assert (Hnz : exists x y, flat_map put_bin (t2 :: ts2) = x :: y).
@@ -187,7 +197,7 @@ Qed.
 Definition unsubscribe_inv (v : N) (b : body) : Prop :=
   match b with
   | BUnsubscribe ver pid topics pr =>
-      ver = v /\ pid < 65536 /\ topics <> [] /\ (forall t, In t topics -> unsub_inv t) /\ oprops_inv v UNSUBSCRIBE pr
+      ver = v /\ 0 < pid < 65536 /\ topics <> [] /\ (forall t, In t topics -> unsub_inv v t) /\ oprops_inv v UNSUBSCRIBE pr
   | _ => False
   end.
 
@@ -199,7 +209,7 @@ Proof.
   intros v pid topics pr ty fl bytes (_ & Hp & Hne & Hts & Hpr) Hpack Hlen.
   cbn [pack_body] in Hpack. apply ok3_inj in Hpack. destruct Hpack as (<- & <- & <-).
   split; [reflexivity|]. split; [reflexivity|].
-  unfold parse_unsubscribe. rewrite read_uint16_put16 by assumption. cbn [bind].
+  unfold parse_unsubscribe. rewrite read_uint16_put16 by lia. cbn [bind]. replace (pid =? 0) with false by lia.
   unfold oprops_inv in Hpr. destruct (v =? 5) eqn:Ev.
   - destruct Hpr as [p [-> Hinv]].
     rewrite props_rt; [|assumption|unfold BIG in Hlen; rewrite !len_app in Hlen; lia].
@@ -207,16 +217,18 @@ Proof.
   - subst pr. cbn [app bind]. rewrite unsub_loop_rt; [reflexivity|assumption|assumption|lia].
 Qed.
 
-Lemma unsub_loop_inv : forall fuel acc b ts,
-  unsub_topics_loop fuel acc b = Ok ts -> bytes_ok b ->
-  exists new, ts = acc ++ new /\ new <> [] /\ (forall t, In t new -> unsub_inv t).
+Lemma unsub_loop_inv : forall fuel v acc b ts,
+  unsub_topics_loop fuel v acc b = Ok ts -> bytes_ok b ->
+  exists new, ts = acc ++ new /\ new <> [] /\ (forall t, In t new -> unsub_inv v t).
 Proof.
-  induction fuel; intros acc b ts H Hb; [discriminate|]. cbn [unsub_topics_loop] in H.
+  induction fuel; intros v acc b ts H Hb; [discriminate|]. cbn [unsub_topics_loop] in H.
   destruct (read_utf8_string true b) as [[tf b1]| | |] eqn:E1; cbn [bind] in H; try discriminate.
   apply read_utf8_string_inv in E1; [|assumption]. destruct E1 as (Hl & _ & Hb1 & Hu).
-  destruct (valid_topic_filter_impl true tf) as [[|]| | |] eqn:Evalid; cbn [bind negb] in H; try discriminate.
-  assert (Ht : unsub_inv tf).
-  { split; [unfold istr_ok; rewrite Hu by reflexivity; lia|]. unfold impl_filter. rewrite Evalid. reflexivity. }
+  destruct (if v =? 5 then valid_v5_topic_impl tf else valid_topic_filter_impl true tf) as [[|]| | |] eqn:Evalid;
+    cbn [bind negb] in H; try discriminate.
+  assert (Ht : unsub_inv v tf).
+  { split; [unfold istr_ok; rewrite Hu by reflexivity; lia|].
+    destruct (v =? 5); [unfold impl_v5|unfold impl_filter]; rewrite Evalid; reflexivity. }
   destruct b1 as [|x b1'].
   - inversion H; subst. exists [tf]. split; [reflexivity|]. split; [discriminate|]. intros t' [<-|[]]. exact Ht.
   - apply IHfuel in H; [|assumption]. destruct H as [new (-> & Hne & Hnew)].
@@ -231,9 +243,11 @@ Proof.
   intros v b body H Hb. unfold parse_unsubscribe in H.
   destruct (read_uint16 b) as [[pid b1]| | |] eqn:E1; cbn [bind] in H; try discriminate.
   apply read_uint16_inv in E1; [|assumption]. destruct E1 as [Hp Hb1].
+  destruct (N.eqb_spec pid 0) as [Hz|Hz]; [discriminate|].
   destruct (if v =? 5 then _ else _) as [[pr b3]| | |] eqn:E3; cbn [bind] in H; try discriminate.
   apply oprops_dec in E3; [|assumption]. destruct E3 as [Hpr Hb3].
-  destruct (unsub_topics_loop _ _ _) as [ts| | |] eqn:El; cbn [bind] in H; try discriminate.
+  destruct (unsub_topics_loop _ _ _ _) as [ts| | |] eqn:El; cbn [bind] in H; try discriminate.
   apply unsub_loop_inv in El; [|assumption]. destruct El as [new (-> & Hne & Hnew)]. cbn [app] in *.
-  inversion H; subst. split; [|eauto]. cbn [unsubscribe_inv]. auto.
+  inversion H; subst. split; [|eauto]. cbn [unsubscribe_inv].
+  split; [reflexivity|]. split; [lia|]. split; [assumption|]. split; assumption.
 Qed.
